@@ -37,6 +37,7 @@ import CaddyModel.C16.Witness
 import CaddyModel.C16.LexProps
 import CaddyModel.C16.HistProps
 import CaddyModel.C16.GlueProps
+import CaddyModel.C16.BindProps
 
 namespace CaddyModel.C16
 
